@@ -4,6 +4,8 @@ import VlsModel.Gen.FnEnforceVal
 import VlsModel.Gen.FnNodePay
 import VlsModel.Gen.FnApproverC06
 import VlsModel.Gen.FnNodeApprove
+import VlsModel.Gen.FnNodeAdd
+import VlsModel.Gen.FnChanRestore
 import VlsModel.Lemmas.FnGen
 import VlsModel.Lemmas.PaymentsFn
 import VlsModel.Lemmas.PaymentsFnSummary
@@ -1245,4 +1247,180 @@ theorem C06_fn_allowlist_contains_payee {H S X P : Type} [DecidableEq S] [Decida
   · rfl
   · unfold Gen.FnNodeApprove.Node.allowlist_contains_payee Gen.FnNodeApprove.Node.get_state
     simp [List.contains_iff_mem]
+/-! ## Round 10 (b4): where the *approved amount* of a hash comes from (area `NodeAdd`, `translate/fn_targets/NodeAdd.b4.json`)
+
+`Node::payment_state_from_invoice` / `payment_state_from_keysend` build the `PaymentState` that `add_invoice` /
+`add_keysend` register (tied in `Props/C12Fn.lean`: `C12_fn_add_invoice`, `C12_fn_add_keysend` — registration only through
+the velocity control, a shortcut for an amount already registered, nothing on refusal = the model's `Node.approve`).  The
+"approved amount" of the statement is `amount_msat` of that state: the invoice's `amount_milli_satoshis()` / the amount of
+the keysend request, never fulfilled at registration. -/
+section NodeAdd
+open VlsModel.Gen.FnNodeAdd (Node PaymentState PaymentType)
+
+theorem C06_fn_payment_state_from_invoice {Invoice PaymentHash PublicKey Duration : Type}
+    (ph : Invoice → PaymentHash) (ihf : Invoice → List Nat) (amt : Invoice → Nat) (payee : Invoice → PublicKey)
+    (dse exp : Invoice → Duration) (inv : Invoice) :
+    Node.payment_state_from_invoice ph ihf amt payee dse exp inv
+      = .ok (ph inv, { invoice_hash := ihf inv, amount_msat := amt inv, payee := payee inv, duration_since_epoch := dse inv,
+                        expiry_duration := exp inv, is_fulfilled := false, payment_type := PaymentType.Invoice }, ihf inv) := rfl
+
+theorem C06_fn_payment_state_from_keysend {PublicKey PaymentHash Duration : Type}
+    (bytes : PaymentHash → List Nat) (fromSecs : Nat → Duration) (payee : PublicKey) (h : PaymentHash) (amount : Nat)
+    (now : Duration) :
+    Node.payment_state_from_keysend bytes fromSecs payee h amount now
+      = .ok ({ invoice_hash := bytes h, amount_msat := amount, payee := payee, duration_since_epoch := now,
+               expiry_duration := fromSecs 60, is_fulfilled := false, payment_type := PaymentType.Keysend }, bytes h) := rfl
+end NodeAdd
+
+/-! ## Round 10 (b4): `Channel::restore_payments` (channel.rs) — the restart clause ("… and the restarts in between")
+
+Until now `restore_payments` was modelled by hand (`Node.restart` of `Model/Payments.lean`, tied by the correspondence group
+only).  Area `ChanRestore` (`translate/fn_targets/ChanRestore.b4.json`) translates its whole body — with it, on demand,
+`payments_summary` / `incoming_payments_summary` / `summarize_payments` of validator.rs and `RoutedPayment::{new, apply}` of
+node.rs a further time.  Normalisations: the node's state (`self.get_node().get_state()`) as an explicit `&mut NodeState`
+parameter, `extend(keys)` as the insert loop, the write through `entry().or_insert_with()` as insert-default / read / `apply` /
+insert back.
+
+`C06_fn_restore_payments`, stated directly on the generated definition: a restart never fails in `restore_payments` itself
+(given the two summaries do not overflow), and afterwards for EVERY hash of either summary the node's entry for the hash carries,
+under this channel's id, exactly `payments_summary(None, None)[hash]` outgoing (= max of the holder and the counterparty view:
+`C06_fn_payments_summary`, `C06_fn_summaries_are_the_model` over the same source text) and `incoming_payments_summary(None,
+None)[hash]` incoming (min of the views); entries of other hashes are untouched.  This is the amount `validate_payments`
+compares with the approved amount after a restart; seed C06-r8-1 (outgoing amount restored from one view only) is of this kind. -/
+section ChanRestore
+open VlsModel.Gen.FnChanRestore (Channel NodeState RoutedPayment EnforcementState)
+variable {H C P : Type} [DecidableEq H] [DecidableEq C]
+
+theorem C06_fn_restore_apply (p : RoutedPayment C P) (id : C) (i o : Nat) (ci co : Option Nat) :
+    ∃ p', RoutedPayment.apply p id i o ci co = .ok p' ∧ p'.incoming = Rs.omapInsert p.incoming id i ∧
+      p'.outgoing = Rs.omapInsert p.outgoing id o ∧ p'.preimage = p.preimage := by
+  unfold RoutedPayment.apply
+  cases ci <;> cases co <;> exact ⟨_, rfl, rfl, rfl, rfl⟩
+
+/-- the hashes `restore_payments` visits: the keys of the two summaries (insertion order, no repeats) -/
+def restoreHashes (inS outS : List (H × Nat)) : List H :=
+  List.foldl (fun hs k => Rs.asetInsert hs k) (List.foldl (fun hs k => Rs.asetInsert hs k) [] (inS.map (fun kv => kv.1)))
+    (outS.map (fun kv => kv.1))
+
+/-- one iteration of the loop of `restore_payments` (the generated body; the two cltv bounds as functions of the hash) -/
+def restoreStep (id0 : C) (inS outS : List (H × Nat)) (minC maxC : H → Option Nat) (state : NodeState H C P) (hash : H) :
+    Rs.M (NodeState H C P) := do
+  let fresh : RoutedPayment C P := (RoutedPayment.new)
+  let state := (match (Rs.omapGet state.payments hash) with | some _ => state | _ => (let state := { state with payments := (Rs.omapInsert state.payments hash fresh) }; state))
+  let payment ← Rs.unwrap (Rs.omapGet state.payments hash)
+  let incoming_sat := ((Option.map (fun a => a) (Rs.omapGet inS hash)).getD 0)
+  let outgoing_sat := ((Option.map (fun a => a) (Rs.omapGet outS hash)).getD 0)
+  let s_7 ← RoutedPayment.apply payment id0 incoming_sat outgoing_sat (minC hash) (maxC hash)
+  let payment := s_7
+  let state := { state with payments := (Rs.omapInsert state.payments hash payment) }
+  pure state
+
+/-- the generated `restore_payments` IS: the two summaries, then the fold of `restoreStep` over `restoreHashes` -/
+theorem C06_fn_restore_payments_form (self : Channel H C) (state : NodeState H C P) :
+    Channel.restore_payments self state = (do
+      let inS ← EnforcementState.incoming_payments_summary self.enforcement_state none none
+      let outS ← EnforcementState.payments_summary self.enforcement_state none none
+      let state ← List.foldlM (restoreStep self.id0 inS outS
+        (fun hash => (Option.or (Option.bind self.enforcement_state.current_holder_commit_info (fun info => ((info.received_htlcs.filter (fun h => (h.payment_hash == hash))).map (fun h => h.cltv_expiry)).min?)) (Option.bind self.enforcement_state.current_counterparty_commit_info (fun info => ((info.offered_htlcs.filter (fun h => (h.payment_hash == hash))).map (fun h => h.cltv_expiry)).min?))))
+        (fun hash => (Option.or (Option.bind self.enforcement_state.current_holder_commit_info (fun info => ((info.offered_htlcs.filter (fun h => (h.payment_hash == hash))).map (fun h => h.cltv_expiry)).max?)) (Option.bind self.enforcement_state.current_counterparty_commit_info (fun info => ((info.received_htlcs.filter (fun h => (h.payment_hash == hash))).map (fun h => h.cltv_expiry)).max?)))))
+        state (restoreHashes inS outS)
+      pure state) := rfl
+
+/-- what the entry of `hash` says about this channel after its iteration -/
+def Restored (id0 : C) (inS outS : List (H × Nat)) (h : H) (p : RoutedPayment C P) : Prop :=
+  Rs.omapGet p.outgoing id0 = some ((Rs.omapGet outS h).getD 0) ∧ Rs.omapGet p.incoming id0 = some ((Rs.omapGet inS h).getD 0)
+
+theorem C06_fn_restore_step (id0 : C) (inS outS : List (H × Nat)) (minC maxC : H → Option Nat) (st : NodeState H C P) (h : H) :
+    ∃ st', restoreStep id0 inS outS minC maxC st h = .ok st' ∧
+      (∃ p, Rs.omapGet st'.payments h = some p ∧ Restored id0 inS outS h p) ∧
+      ∀ h', h' ≠ h → Rs.omapGet st'.payments h' = Rs.omapGet st.payments h' := by
+  unfold restoreStep
+  cases hg : Rs.omapGet st.payments h with
+  | some old =>
+    obtain ⟨p', hp, hi, ho, _⟩ := C06_fn_restore_apply old id0 ((Rs.omapGet inS h).getD 0)
+      ((Rs.omapGet outS h).getD 0) (minC h) (maxC h)
+    refine ⟨{ st with payments := Rs.omapInsert st.payments h p' }, ?_, ⟨p', ?_, ?_⟩, ?_⟩
+    · simp [hg, Rs.unwrap, hp]
+    · simp [Rs.omapGet_omapInsert]
+    · simp [Restored, hi, ho, Rs.omapGet_omapInsert]
+    · intro h' hne; simp [Rs.omapGet_omapInsert, Ne.symm hne]
+  | none =>
+    obtain ⟨p', hp, hi, ho, _⟩ := C06_fn_restore_apply (RoutedPayment.new : RoutedPayment C P) id0
+      ((Rs.omapGet inS h).getD 0) ((Rs.omapGet outS h).getD 0) (minC h) (maxC h)
+    refine ⟨{ st with payments := Rs.omapInsert (Rs.omapInsert st.payments h RoutedPayment.new) h p' }, ?_, ⟨p', ?_, ?_⟩, ?_⟩
+    · simp [hg, Rs.unwrap, hp, Rs.omapGet_omapInsert]
+    · simp [Rs.omapGet_omapInsert]
+    · simp [Restored, hi, ho, Rs.omapGet_omapInsert]
+    · intro h' hne; simp [Rs.omapGet_omapInsert, Ne.symm hne]
+
+theorem C06_fn_restore_fold (id0 : C) (inS outS : List (H × Nat)) (minC maxC : H → Option Nat) :
+    ∀ (l : List H) (st : NodeState H C P), ∃ st', List.foldlM (restoreStep id0 inS outS minC maxC) st l = .ok st' ∧
+      (∀ h ∈ l, ∃ p, Rs.omapGet st'.payments h = some p ∧ Restored id0 inS outS h p) ∧
+      ∀ h', h' ∉ l → Rs.omapGet st'.payments h' = Rs.omapGet st.payments h' := by
+  intro l
+  induction l with
+  | nil => intro st; exact ⟨st, rfl, by simp, fun _ _ => rfl⟩
+  | cons a l ih =>
+    intro st
+    obtain ⟨st1, h1, hp1, ho1⟩ := C06_fn_restore_step id0 inS outS minC maxC st a
+    obtain ⟨st', h2, hp2, ho2⟩ := ih st1
+    refine ⟨st', by simp [List.foldlM, h1, h2], ?_, ?_⟩
+    · intro h hm
+      by_cases hl : h ∈ l
+      · exact hp2 h hl
+      · have : h = a := by simpa [hl] using hm
+        subst this
+        rw [ho2 h hl]; exact hp1
+    · intro h' hn
+      have hne : h' ≠ a := fun e => hn (by simp [e])
+      have hnl : h' ∉ l := fun e => hn (by simp [e])
+      rw [ho2 h' hnl, ho1 h' hne]
+
+theorem C06_fn_mem_asetInsert (l : List H) (k x : H) : x ∈ Rs.asetInsert l k ↔ x ∈ l ∨ x = k := by
+  unfold Rs.asetInsert
+  by_cases hc : l.contains k
+  · simp only [hc, if_true]
+    constructor
+    · exact Or.inl
+    · rintro (h | h)
+      · exact h
+      · subst h; simpa using hc
+  · have hc' : k ∉ l := by simpa using hc
+    simp [hc']
+
+theorem C06_fn_mem_fold_asetInsert (ks : List H) : ∀ (init : List H) (x : H),
+    x ∈ List.foldl (fun hs k => Rs.asetInsert hs k) init ks ↔ x ∈ init ∨ x ∈ ks := by
+  induction ks with
+  | nil => intro init x; simp
+  | cons k ks ih => intro init x; simp [List.foldl, ih, C06_fn_mem_asetInsert, or_assoc]
+
+/-- **C06_fn_restore_payments** (see the section header). -/
+theorem C06_fn_restore_payments (self : Channel H C) (st : NodeState H C P) (inS outS : List (H × Nat))
+    (hin : EnforcementState.incoming_payments_summary self.enforcement_state none none = .ok inS)
+    (hout : EnforcementState.payments_summary self.enforcement_state none none = .ok outS) :
+    ∃ st', Channel.restore_payments self st = .ok st' ∧
+      (∀ h, (h ∈ inS.map (fun kv => kv.1) ∨ h ∈ outS.map (fun kv => kv.1)) →
+        ∃ p, Rs.omapGet st'.payments h = some p ∧
+          Rs.omapGet p.outgoing self.id0 = some ((Rs.omapGet outS h).getD 0) ∧
+          Rs.omapGet p.incoming self.id0 = some ((Rs.omapGet inS h).getD 0)) ∧
+      (∀ h, ¬ (h ∈ inS.map (fun kv => kv.1) ∨ h ∈ outS.map (fun kv => kv.1)) →
+        Rs.omapGet st'.payments h = Rs.omapGet st.payments h) := by
+  rw [C06_fn_restore_payments_form]
+  simp only [hin, hout, Rs.bind_ok]
+  obtain ⟨st', h1, h2, h3⟩ := C06_fn_restore_fold (P := P) self.id0 inS outS _ _ (restoreHashes inS outS) st
+  refine ⟨st', by rw [h1], ?_, ?_⟩
+  · intro h hm
+    exact h2 h (by simpa [restoreHashes, C06_fn_mem_fold_asetInsert] using hm)
+  · intro h hm
+    exact h3 h (by simpa [restoreHashes, C06_fn_mem_fold_asetInsert] using hm)
+
+/-- non-vacuity: the counterparty commitment already carries a second part of hash 7 (600 + 400 received = outgoing), the
+    holder commitment only the first (600 offered): the restart restores 1000 outgoing under the channel's id, not 600 -/
+example : (Channel.restore_payments (PaymentPreimage := Nat)
+      { enforcement_state := { current_holder_commit_info := some { offered_htlcs := [⟨600, 7, 500⟩], received_htlcs := [] },
+                               current_counterparty_commit_info := some { offered_htlcs := [], received_htlcs := [⟨600, 7, 500⟩, ⟨400, 7, 500⟩] } },
+        id0 := 3 } { payments := [] }).toOption.map (fun s => (Rs.omapGet s.payments 7).map (fun p => p.outgoing))
+    = some (some [(3, 1000)]) := by decide
+end ChanRestore
+
 end VlsModel.Props.C06Fn
